@@ -123,11 +123,11 @@ EXTRA_TEXT = {
     "C15": " A reward period that starts where nothing was staked before starts with nothing credited (a delegator that leaves a validator altogether and comes back does not find its old rewards); annual rates above 100 % are part of the parameter pool.",
     "C14": " Coins in a near miss of the bonded denomination (other letter case, padded, a prefix, an extension) are rejected like any other denomination, although the delegators hold such coins.",
     "C10": " After a failed call App queries equal the committed state; staking queries equal the raw staking state (BondedDenom equals the parameters supplied last, also where the module is set up twice); smart queries are answered by the recorded code. The key-only and value-only iterations of a query's read-only view list what its range lists.",
-    "C12": " Codes assembled by ContractWrapper::new without reply / sudo / migrate entry points: a migration to a code without migrate fails and changes nothing. Admin-less contracts reject every signer incl. the empty string.",
-    "C13": " Values include long, padded, reserved-looking and multi-line strings.",
+    "C12": " Codes assembled by ContractWrapper::new without reply / sudo / migrate entry points: a migration to a code without migrate fails and changes nothing. Admin-less contracts reject every signer incl. the empty string. Wasm messages whose payload the contract cannot read (empty, not JSON, another shape) change nothing, whoever signs them.",
+    "C13": " Values include long, padded, reserved-looking and multi-line strings; keys, values and event types of 255 to 258, 511 to 513 and 65 535 to 65 537 bytes occur.",
     "C17": " Module answers rotate over data / events / both / nothing (reply_on Success and Always must still deliver exactly that answer); execute_multi batches: modules see exactly the prefix up to the first failing message; one response / one batch with 257 to 300 messages reaches the module message by message. A smaller matrix (kind x origin x accepting / failing module) also runs on builds of the repository with the feature sets default, cosmwasm_2_0, stargate, staking and staking+stargate+cosmwasm_1_4: every message / query variant that exists in a build reaches its module there.",
-    "C18": " Whatever validation accepts it returns unchanged (all upper case and non-zero padding-bit spellings of valid addresses are tried).",
-    "C19": " Staking and bank programs are generated on a thread of their own and compared between a never-used thread, the used worker thread and other processes that receive the programs in a file; transcripts include env.transaction, reply.gas_used and reply.msg_responses. Other instances run a contract that panics in execute, query and sudo (caught) before / between the compared runs.",
+    "C18": " Whatever validation accepts it returns unchanged (all upper case, non-zero padding-bit spellings and the address with white space or a NUL around it are tried). Near misses of a name and long names sharing a prefix get different addresses.",
+    "C19": " Staking and bank programs are generated on a thread of their own and compared between a never-used thread, the used worker thread and other processes that receive the programs in a file; transcripts include env.transaction, reply.gas_used and reply.msg_responses. Two instances of every staking and bank program also run in lock-step on one thread. Other instances run a contract that panics in execute, query and sudo (caught) before / between the compared runs.",
     "C20": " The wrapper chains also run on builds of the repository with its default and four other reduced feature sets (what a wrapper keeps must not depend on the build's features). Steps given twice (decoy first) equal the chain with the value supplied last; every wrapped entry point's error arrives as that error, still of its own type, and its whole response (attributes, event, data, sub-messages with gas limits, plain messages) arrives unchanged; App::default / App::new / custom_app give the documented defaults. Every component call and every entry point of a reporter contract (through execute, query, sudo, wasm_sudo, execute_multi, instantiate, reply, migrate) is handed the application's own Api and current block.",
 }
 for _pid, _t in EXTRA_TEXT.items():
